@@ -22,6 +22,7 @@ obj_t vx_all[VX_CAP + NH];         /* one arena so that the pools' address-range
 #define vx_block vx_all            /* the preallocated block (bounded / plain pool): the first VX_CAP objects */
 #define vx_heap (vx_all + VX_CAP) /* heap objects outside the block */
 int st_block[VX_CAP], st_heap[NH]; /* where each object is */
+size_t q_cap = VX_CAP;               /* capacity of the ghost queue */
 size_t q_count;                   /* number of objects in the queue (== number of QUEUE states) */
 int vx_others_budget = 3;         /* other holders act at most this many times per call (closes the retry loops; they are memoryless) */
 int vx_others_off; int vx_kind;
@@ -55,7 +56,7 @@ int vxq_push(void* p) {
     others(); ev_push++;
     int* s = state_of(p);
     __CPROVER_assert(s != 0 && *s == MINE, "C24.push: only an object the caller holds is put into the free list (never one that is already there, freed, or someone else's)");
-    if (q_count >= VX_CAP) return 0;                         /* fails only if capacity items are present at this instant */
+    if (q_count >= q_cap) return 0;                         /* fails only if capacity items are present at this instant */
     if (s) *s = QUEUE; q_count++; last_push_ok = p;
     return 1;
 }
@@ -70,7 +71,9 @@ void* vxq_pop(void) {
     q_count--; last_pop = r; return r;
 }
 size_t vxq_size(void) { others(); if (q_count == 0) vx_empty_seen = 1; return q_count; }
-size_t vxq_capacity(void) { return VX_CAP; }
+/* contract of the queue constructor: a dynamic buffer of the requested size rounded up to a power of two (0: the static buffer) */
+void vxq_construct(size_t n) { q_cap = n == 0 ? VX_CAP : n <= 1 ? 2 : n <= 2 ? 2 : n <= 4 ? 4 : 8; }
+size_t vxq_capacity(void) { return q_cap; }
 int vxq_empty(void) { others(); return q_count == 0; }
 void vxq_clear(void) {}
 /* ---- ghost heap */
@@ -85,13 +88,14 @@ void vx_heap_free(void* p) {
     __CPROVER_assert(s != 0 && *s == MINE, "C24.free: only an object the caller holds is given back to the heap (never one that sits in the free list or belongs to another holder)");
     if (s) *s = FREE;
 }
-void* vx_block_alloc(size_t n) { __CPROVER_assert(n == VX_CAP, "C24.preallocate: the block has capacity() objects"); return vx_block; }
+size_t block_n;
+void* vx_block_alloc(size_t n) { __CPROVER_assert(n == q_cap, "C24.preallocate: the block has capacity() objects (every pointer put into the free list must lie inside it)"); block_n = n; return vx_block; }
 void vx_obj_constructed(void* p) {} void vx_obj_destroyed(void* p) {}
 
 void w_set_block(void*, size_t);
-void* w_vqp_allocate(void); void w_vqp_deallocate(void*); void w_vqp_preallocate(void); void* w_vqp_first(void); void* w_vqp_last(void);
+void* w_vqp_allocate(void); void w_vqp_deallocate(void*); void w_vqp_construct(size_t); void* w_vqp_first(void); void* w_vqp_last(void);
 void* w_lazy_allocate(void); void w_lazy_deallocate(void*);
-void* w_bounded_allocate(void); void w_bounded_deallocate(void*); void w_bounded_preallocate(void); void* w_bounded_first(void); void* w_bounded_last(void);
+void* w_bounded_allocate(void); void w_bounded_deallocate(void*); void w_bounded_construct(size_t); void* w_bounded_first(void); void* w_bounded_last(void);
 void* w_pa_allocate(void); void w_pa_deallocate(void*);
 
 /* arbitrary consistent pool state; block objects are never FREE once preallocated; pool kinds: 0 plain (block + heap), 1 lazy (heap only), 2 bounded (block only) */
@@ -134,12 +138,13 @@ void h_vqp_deallocate(void)  { setup(0); void* p = pick_mine(1, 1); w_vqp_deallo
 void h_lazy_deallocate(void) { setup(1); void* p = pick_mine(0, 1); w_lazy_deallocate(p); check_deallocate(p, 1); VX_REACH_GUARD(); }
 void h_bounded_deallocate(void) { setup(2); void* p = pick_mine(1, 0); w_bounded_deallocate(p); check_deallocate(p, 0); __CPROVER_assert(ev_free == 0, "C24.deallocate: the bounded pool never frees to the heap"); VX_REACH_GUARD(); }
 static void check_prealloc(void* first, void* last) {
-    __CPROVER_assert(first == (void*)vx_block && last == (void*)(vx_block + VX_CAP), "C24.preallocate: first/last delimit the block");
-    for (unsigned i = 0; i < VX_CAP; ++i) __CPROVER_assert(st_block[i] == QUEUE, "C24.preallocate: every object of the block is in the free list exactly once");
-    __CPROVER_assert(q_count == VX_CAP, "C24.preallocate: the free list holds capacity() objects");
+    __CPROVER_assert(block_n == q_cap && first == (void*)vx_block && last == (void*)(vx_block + block_n), "C24.preallocate: first/last delimit exactly the allocated block");
+    for (unsigned i = 0; i < VX_CAP; ++i) __CPROVER_assert(st_block[i] == (i < q_cap ? QUEUE : MINE), "C24.preallocate: every object of the block is in the free list exactly once, nothing outside the block is");
+    __CPROVER_assert(q_count == q_cap, "C24.preallocate: the free list holds capacity() objects");
 }
-void h_vqp_preallocate(void) { vx_others_off = 1; q_count = 0; for (unsigned i = 0; i < VX_CAP; ++i) st_block[i] = MINE; w_vqp_preallocate(); check_prealloc(w_vqp_first(), w_vqp_last()); VX_REACH_GUARD(); }
-void h_bounded_preallocate(void) { vx_others_off = 1; q_count = 0; for (unsigned i = 0; i < VX_CAP; ++i) st_block[i] = MINE; w_bounded_preallocate(); check_prealloc(w_bounded_first(), w_bounded_last()); VX_REACH_GUARD(); }
+static size_t requested(void) { size_t n = (size_t)(unsigned)nondet_int(); __CPROVER_assume(n <= VX_CAP); return n; }   /* any requested size: 0 (static buffer), powers of two and not */
+void h_vqp_preallocate(void) { vx_others_off = 1; q_count = 0; for (unsigned i = 0; i < VX_CAP; ++i) st_block[i] = MINE; w_vqp_construct(requested()); check_prealloc(w_vqp_first(), w_vqp_last()); VX_REACH_GUARD(); }
+void h_bounded_preallocate(void) { vx_others_off = 1; q_count = 0; for (unsigned i = 0; i < VX_CAP; ++i) st_block[i] = MINE; w_bounded_construct(requested()); check_prealloc(w_bounded_first(), w_bounded_last()); VX_REACH_GUARD(); }
 void h_pool_allocator(void) {
     setup(1);
     void* r = w_pa_allocate();
